@@ -463,7 +463,10 @@ func (x *Exec) cutLoop(st *State, ls *LoopSpec, id, label string, nodes []ast.No
 	mkEnv := func(s *State) *SpecEnv { return x.specEnv(s) }
 	// entry
 	for i, inv := range ls.Invariants {
-		g := mkEnv(st).evalBool(inv.Expr)
+		g, facts := mkEnv(st).evalWithFacts(inv.Expr)
+		for _, f := range facts {
+			st.assume(f)
+		}
 		x.obligeNamed(st, fmt.Sprintf("inv-entry[loop%s.%d]", id, i), "inv-entry", g, pos, inv.Text)
 	}
 	// havoc
@@ -492,6 +495,46 @@ func (x *Exec) cutLoop(st *State, ls *LoopSpec, id, label string, nodes []ast.No
 		h.vars[o] = Value{T: nv, Ty: old.Ty}
 	}
 	x.havocKinds(h, eff, st)
+	// implicit frame invariant: objects that existed on function entry and are
+	// outside the declared assigns set are unchanged (asserted on entry and
+	// after each iteration, assumed after the havoc)
+	type frameItem struct {
+		hv, sort string
+		refs     []Term
+	}
+	var frames []frameItem
+	if x.ct != nil && x.ct.HasAssigns {
+		ms := x.modset(x.entryEnv(st), x.ct)
+		for _, k := range eff.kindsW() {
+			if k.Tag == "global" {
+				continue
+			}
+			names, sorts := x.vc.heapVars(k)
+			for i2, hv := range names {
+				frames = append(frames, frameItem{hv, sorts[i2], ms[k.Name]})
+			}
+		}
+	}
+	frameGoal := func(s2 *State, fi frameItem, r Term) Term {
+		conds := []Term{app("Bool", "<=", mathInt(0), r), app("Bool", "<", r, x.entry.alloc)}
+		for _, m := range fi.refs {
+			conds = append(conds, tNot(tEq(r, m)))
+		}
+		return tImplies(tAnd(conds...), tEq(tSelect(x.vc.heap(s2, fi.hv, fi.sort), r), tSelect(x.vc.heap(x.entry, fi.hv, fi.sort), r)))
+	}
+	for _, fi := range frames {
+		if x.vc.heap(st, fi.hv, fi.sort).S == x.vc.heap(x.entry, fi.hv, fi.sort).S {
+			continue
+		}
+		r := x.vc.fresh("fr", "Int")
+		x.obligeNamed(st, fmt.Sprintf("inv-entry[loop%s.frame.%s]", id, fi.hv), "inv-entry", frameGoal(st, fi, r), pos, "frame holds at loop entry: "+fi.hv)
+	}
+	for _, fi := range frames {
+		x.vc.n++
+		bv := fmt.Sprintf("r!%d", x.vc.n)
+		body := frameGoal(h, fi, Term{S: bv, Sort: "Int"})
+		h.assume(Term{S: fmt.Sprintf("(forall ((%s Int)) (! %s :pattern ((select %s %s))))", bv, body.S, x.vc.heap(h, fi.hv, fi.sort).S, bv), Sort: "Bool"})
+	}
 	for _, o := range objs {
 		v := h.vars[o]
 		if v.Fn == nil {
@@ -504,7 +547,11 @@ func (x *Exec) cutLoop(st *State, ls *LoopSpec, id, label string, nodes []ast.No
 		}
 	}
 	for _, inv := range ls.Invariants {
-		h.assume(mkEnv(h).evalBool(inv.Expr))
+		g, facts := mkEnv(h).evalWithFacts(inv.Expr)
+		for _, f := range facts {
+			h.assume(f)
+		}
+		h.assume(g)
 	}
 	c := cond(h)
 	var exits []*State
@@ -535,8 +582,15 @@ func (x *Exec) cutLoop(st *State, ls *LoopSpec, id, label string, nodes []ast.No
 					x.obligeNamed(f.next, fmt.Sprintf("inv-step[loop%s.auto%d]", id, i), "inv-step", t, pos, "implicit range invariant")
 				}
 			}
+			for _, fi := range frames {
+				r := x.vc.fresh("fr", "Int")
+				x.obligeNamed(f.next, fmt.Sprintf("inv-step[loop%s.frame.%s]", id, fi.hv), "inv-step", frameGoal(f.next, fi, r), pos, "frame preserved by the loop body: "+fi.hv)
+			}
 			for i, inv := range ls.Invariants {
-				g := mkEnv(f.next).evalBool(inv.Expr)
+				g, facts := mkEnv(f.next).evalWithFacts(inv.Expr)
+				for _, ft := range facts {
+					f.next.assume(ft)
+				}
 				x.obligeNamed(f.next, fmt.Sprintf("inv-step[loop%s.%d]", id, i), "inv-step", g, pos, inv.Text)
 			}
 			if ls.Decreases != nil {
